@@ -156,7 +156,11 @@ func c18parse(err error) string {
 			mism = append(mism, line[2:])
 		case strings.TrimSpace(line) == "" || strings.HasPrefix(line, "some packages had errors") || strings.HasPrefix(line, "errors in package"):
 		default:
-			return tag("unparsed", atom(msg))
+			// a failure in a wording not known here: matches any failing verdict of the model
+			// (lines sorted: import-boss reports in map order)
+			ls := strings.Split(msg, "\n")
+			sort.Strings(ls)
+			return tag("?", atom(strings.Join(ls, "\n")))
 		}
 	}
 	var fk []string
